@@ -79,6 +79,10 @@ def discover():
                     if m:
                         name = m.group(3)
                         break
+                    m = re.match(r"^\w+!\((\w+),", l2)  # harness defined through a macro: name is the first argument
+                    if m:
+                        name = m.group(1)
+                        break
                     j += 1
                 if name is None:
                     raise SystemExit("harness annotation without fn in %s:%d" % (path, i + 1))
